@@ -124,6 +124,8 @@ def r3_join(ctx):
     def disp(v):
         if v[0] == "ctor" and v[1] in ("String", "Signed", "Unsigned", "Float", "Bool") and v[2]:
             x = v[2][0]
+            if x[0] == "atom" and x[1].startswith("float:"):
+                return ("float", x[1][6:])
             return ("str", x[1] if x[0] == "str" else (("true" if x[1] else "false") if x[0] == "bool" else str(x[1])))
         return ("str", absint.fmt(v))
 
@@ -133,15 +135,12 @@ def r3_join(ctx):
         ev.display = disp
         ev.consts = {"usize::MAX": MAXV}
         return ev
-    kinds = {"String": C("String", S("ab"), MAXV), "Signed": C("Signed", I(-3)), "Unsigned": C("Unsigned", I(7)), "Float": C("Float", A("1.5")), "Bool": C("Bool", ("bool", True))}
-    shown = {"String": "ab", "Signed": "-3", "Unsigned": "7", "Float": "1.5", "Bool": "true"}
+    # the float 2.0: its text is `2` (what `{{ x }}` renders for x = 2.0 at run time: Display of f64), not `2.0`
+    kinds = {"String": C("String", S("ab"), MAXV), "Signed": C("Signed", I(-3)), "Unsigned": C("Unsigned", I(7)), "Float": C("Float", A("float:2")), "Bool": C("Bool", ("bool", True))}
+    shown = {"String": "ab", "Signed": "-3", "Unsigned": "7", "Float": "2", "Bool": "true"}
     bad = []
     for k1, v1 in kinds.items():
         for k2, v2 in kinds.items():
-            if "Float" in (k1, k2) and k1 != "String" and k1 == "Float":
-                continue        # the float's text is an uninterpreted atom
-            if k2 == "Float":
-                continue
             ev = mk()
             got = ev.run_fn(join, [v1, v2])
             after = ev.last_env.get("self") if not isinstance(got, str) else got
@@ -151,7 +150,7 @@ def r3_join(ctx):
     if bad:
         r.viol("R3:Literal::join", "; ".join(bad[:2]), file=PV, line=join.line)
     else:
-        r.inst("Literal::join", "16 (self kind, other kind) pairs: the result is the text of self followed by the text of other")
+        r.inst("Literal::join", "25 (self kind, other kind) pairs incl. the float 2.0 (text `2`): the result is the text of self followed by the text of other")
     # reduce_into on the kinds a string cannot produce
     lit = lambda t: C("Literal", C("String", S(t), MAXV))  # noqa: E731
     items = [C("Default"), lit("a"), C("Subkeys", C("None")), lit(""), C("Literal", C("Signed", I(3))), C("Ranges", A("R")), lit("b"),
